@@ -1838,6 +1838,11 @@ impl KyroDbService for KyroDBServiceImpl {
         let global_doc_id = self.map_doc_id(tenant.as_ref(), req.doc_id)?;
 
         let engine = &self.state.engine;
+        // Deletes move the tenant's vector count: hold the same per-tenant lock as the
+        // insert paths, otherwise a delete that lands between an upsert's existence
+        // check and its engine insert leaves a live document that is not counted.
+        let quota_lock = self.tenant_quota_lock(tenant.as_ref());
+        let _quota_guard = quota_lock.as_ref().map(|lock| lock.lock());
 
         let metadata = match engine.get_metadata(global_doc_id) {
             Some(m) => m,
@@ -2459,6 +2464,10 @@ impl KyroDbService for KyroDBServiceImpl {
         let req = request.into_inner();
 
         let engine = &self.state.engine;
+        // Same per-tenant lock as insert and delete: selection, delete and quota
+        // decrement must not interleave with a concurrent upsert of the tenant.
+        let quota_lock = self.tenant_quota_lock(tenant.as_ref());
+        let _quota_guard = quota_lock.as_ref().map(|lock| lock.lock());
 
         let result = match req.delete_criteria {
             Some(batch_delete_request::DeleteCriteria::Ids(id_list)) => {
